@@ -57,3 +57,28 @@ Theorem C06_substituted_key :
     client_login_finish CS clog pw ke2 ctx ids ksf = Err EInvalidLogin \/ Bad (hash CS).
 Proof. exact @substituted_key_rejected. Qed.
 Print Assumptions C06_substituted_key.
+
+
+(* the same statement at each of the 20 concrete suites: HashLaws, CodecLaws, SizeLaws and the encoding half of
+   GroupLaws are proved for them (Theory/GroupSplit.v), so the only hypothesis left is CurveLaws - seven facts of
+   elliptic-curve arithmetic (the group is a group; decompression inverts compression) *)
+From OKE Require Import CodecsConcrete GroupSplit Concrete20.
+Definition C06_substituted_key_statement {E Sc Pk Sk} (CS : Suite E Sc Pk Sk) : Prop :=
+  forall tape setup t1 pw creg rq t2 cred rr ids ksf upload ek spk t3 clog ke1 t4 ctx slog ke2 t5 dbg setup',
+    ve CS (o_h2g (oprf CS) pw (dst_hash_to_group (oprf CS))) ->
+    server_setup_new CS tape = Ok (setup, t1) ->
+    client_registration_start CS t1 pw = Ok (creg, rq, t2) ->
+    server_registration_start CS setup rq cred = Ok rr ->
+    client_registration_finish CS creg t2 pw rr ids ksf = Ok (upload, ek, spk, t3) ->
+    client_login_start CS t3 pw = Ok (clog, ke1, t4) ->
+    ss_oprf_seed setup' = ss_oprf_seed setup ->
+    vk CS (kp_sk (ss_keypair setup')) ->
+    k_ser_pk (ke CS) (k_pub (ke CS) (kp_sk (ss_keypair setup'))) <> k_ser_pk (ke CS) (kp_pk (ss_keypair setup)) ->
+    server_login_start CS (private_key_ops (ke CS)) t4 setup' (Some (server_registration_finish upload)) ke1 cred ctx ids
+      = Ok (slog, ke2, t5, dbg) ->
+    o_eqb (oprf CS) (cq_blinded ke1) (cr_eval ke2) = false ->
+    client_login_finish CS clog pw ke2 ctx ids ksf = Err EInvalidLogin \/ Bad (hash CS).
+Theorem C06_substituted_key_at_each_of_the_20_suites :
+  all_suites (fun _ _ _ _ CS => CurveLaws CS -> C06_substituted_key_statement CS).
+Proof. apply at_the_20_suites. exact C06_substituted_key. Qed.
+Print Assumptions C06_substituted_key_at_each_of_the_20_suites.
